@@ -59,6 +59,9 @@ type Inv struct {
 	JSPrecision, JSVersion                                                 int
 	URL                                                                    string // --url
 	UseMime                                                                bool   // spell --type as the deprecated --mime
+	// CPUs > 0: the process is confined to that many CPUs (affinity set before exec), which is
+	// what runtime.NumCPU() reports and what the command sizes its worker pool by (min 4).
+	CPUs int
 }
 
 type Filter struct {
